@@ -158,6 +158,17 @@ def check_proofs_one(ctx, prop_file):
     if bad:
         res["failed"].append("forbidden tokens: " + "; ".join(bad[:5]))
         res["discharged"] = 0
+    if getattr(ctx, "tier", "quick") == "thorough" and not res["failed"]:
+        # independent re-check of the compiled statement file and everything it depends on (coqchk, its own
+        # type checker); the context summary must list no axiom, nothing relying on type-in-type, unsafe
+        # fixpoints or assumed positivity
+        rc, out = sh(["coqchk", "-o", "-silent"] + COQ_Q + ["RV.Props.%s" % prop_file], cwd=COQ, timeout=2400)
+        summary = out[out.find("CONTEXT SUMMARY"):] if "CONTEXT SUMMARY" in out else out[-1500:]
+        wanted = ["Axioms: <none>", "type-in-type: <none>", "unsafe (co)fixpoints: <none>", "positivity is assumed: <none>"]
+        if rc != 0 or not all(w in summary for w in wanted):
+            res["failed"].append("coqchk RV.Props.%s: rc=%d %s" % (prop_file, rc, " ".join(summary.split())[:400]))
+        res["cmd"] += " && coqchk -o -silent <-Q flags> RV.Props.%s  # Axioms: <none> required" % prop_file
+        res["coqchk"] = " ".join(summary.split())[:300]
     res["ok"] = (not res["failed"]) and res["discharged"] == res["obligations"] and res["obligations"] > 0
     return res
 
